@@ -1,2 +1,198 @@
-(* Props/C17.v — placeholder while the theorems are being written (see Proofs/Tools.v). *)
-From Eino Require Import Base.Util Model.Tools.
+(* Props/C17.v — property C17: the tools node answers every tool call, in call order, whatever
+   the completion order; the streamed form concatenates to the same list; failures, panics and
+   unknown tool names.  Statements only; proofs in Proofs/Tools.v; model in Model/Tools.v.
+
+   Reading guide.  [kind_of], [inv], [str], [handler] are the configured tools (kind by name,
+   what InvokableRun / StreamableRun compute as pure functions of name and arguments) and the
+   optional unknown-tool handler — arbitrary.  [pi] is the order in which the concurrently
+   executed calls complete; [sched] the order in which the merged output stream delivers the
+   tools' chunks.  [answer c] is what the tool named by call [c] returns on [c]'s arguments
+   (through the handler for an unknown name; [Err] if the name does not resolve). *)
+From Coq Require Import Permutation.
+From Eino Require Import Base.Util Model.Tools Proofs.Tools.
+Local Open Scope string_scope.
+
+(* N calls => exactly N messages, the i-th = (output of the i-th call's tool on its arguments,
+   i-th call's id), for every completion order *)
+Theorem tools_invoke_spec :
+  forall kind_of inv str handler pi calls outs,
+    calls <> [] ->
+    Permutation pi (seq 0 (List.length calls)) ->
+    Forall2 (fun c o => answer kind_of inv str handler c = Ok (TOk o)) calls outs ->
+    tools_invoke kind_of inv str handler pi true calls = Ok (combine outs (map c_id calls)).
+Proof. exact invoke_spec. Qed.
+Print Assumptions tools_invoke_spec.
+
+Theorem tools_invoke_length :
+  forall kind_of inv str handler calls outs,
+    Forall2 (fun c o => answer kind_of inv str handler c = Ok (TOk o)) calls outs ->
+    List.length (combine outs (map c_id calls)) = List.length calls.
+Proof. exact invoke_spec_length. Qed.
+Print Assumptions tools_invoke_length.
+
+(* the answer of a call is its tool's: a known invokable tool is run on the call's arguments, a
+   streamable-only one is run and its stream concatenated *)
+Theorem tools_answer_known :
+  forall kind_of inv str handler c k,
+    kind_of (c_name c) = Some k ->
+    answer kind_of inv str handler c =
+    Ok (match k with
+        | KStr => invoke_by_stream (str (c_name c) (c_args c))
+        | _ => inv (c_name c) (c_args c)
+        end).
+Proof. exact answer_known. Qed.
+Print Assumptions tools_answer_known.
+
+(* the result does not depend on the completion order at all (Invoke and the call-time part of Stream) *)
+Theorem tools_schedule_independent :
+  forall kind_of inv str handler pi pi' role_ok calls,
+    Permutation pi (seq 0 (List.length calls)) -> Permutation pi' (seq 0 (List.length calls)) ->
+    tools_invoke kind_of inv str handler pi role_ok calls = tools_invoke kind_of inv str handler pi' role_ok calls
+    /\ tools_stream_open kind_of inv str handler pi role_ok calls = tools_stream_open kind_of inv str handler pi' role_ok calls.
+Proof. exact schedule_independent. Qed.
+Print Assumptions tools_schedule_independent.
+
+(* a failing tool makes the whole call fail with that tool's error — the lowest failing index
+   when several fail — for every completion order.  A panic of a call other than the first is
+   reported as the panic error; a panic of the first call (which runs inline on the caller's
+   goroutine) is not recovered by the node and reaches the caller as a panic. *)
+Theorem tools_fail :
+  forall kind_of inv str handler pi calls pre c post outs r,
+    Permutation pi (seq 0 (List.length calls)) ->
+    calls = (pre ++ c :: post)%list ->
+    (forall c', In c' calls -> exists r', answer kind_of inv str handler c' = Ok r') ->
+    Forall2 (fun c o => answer kind_of inv str handler c = Ok (TOk o)) pre outs ->
+    answer kind_of inv str handler c = Ok r ->
+    (forall o, r <> TOk o) ->
+    tools_invoke kind_of inv str handler pi true calls =
+    match r with
+    | TErr e => Err e
+    | _ => match pre with [] => Panic | _ => Err E_PANIC end
+    end.
+Proof. exact invoke_first_failure. Qed.
+Print Assumptions tools_fail.
+
+(* inside a graph run a panicking tool makes the run fail with an error, never crash *)
+Theorem tools_panic_contained :
+  forall kind_of inv str handler pi calls pre c post outs,
+    Permutation pi (seq 0 (List.length calls)) ->
+    calls = (pre ++ c :: post)%list ->
+    (forall c', In c' calls -> exists r', answer kind_of inv str handler c' = Ok r') ->
+    Forall2 (fun c o => answer kind_of inv str handler c = Ok (TOk o)) pre outs ->
+    answer kind_of inv str handler c = Ok TPanic ->
+    in_graph (tools_invoke kind_of inv str handler pi true calls) = Err E_PANIC.
+Proof. exact panic_is_error_in_graph. Qed.
+Print Assumptions tools_panic_contained.
+
+Theorem tools_never_panic_in_graph :
+  forall kind_of inv str handler pi role_ok calls,
+    in_graph (tools_invoke kind_of inv str handler pi role_ok calls) <> Panic
+    /\ in_graph (tools_stream_open kind_of inv str handler pi role_ok calls) <> Panic.
+Proof. exact panic_contained. Qed.
+Print Assumptions tools_never_panic_in_graph.
+
+(* unknown tool name, no handler: an error (Invoke and Stream), and no tool runs *)
+Theorem tools_unknown :
+  forall kind_of inv str handler pi calls c,
+    In c calls -> kind_of (c_name c) = None -> handler = None ->
+    tools_invoke kind_of inv str handler pi true calls = Err E_UNKNOWN
+    /\ tools_stream_open kind_of inv str handler pi true calls = Err E_UNKNOWN
+    /\ tools_executed kind_of handler true calls = [].
+Proof. exact unknown_without_handler. Qed.
+Print Assumptions tools_unknown.
+
+(* unknown tool name, handler configured: the handler's answer is that call's answer
+   (so, by tools_invoke_spec / tools_fail, it is used at that call's position) *)
+Theorem tools_unknown_handler :
+  forall kind_of inv str handler c h,
+    kind_of (c_name c) = None -> handler = Some h ->
+    answer kind_of inv str handler c = Ok (h (c_name c) (c_args c)).
+Proof. exact unknown_with_handler. Qed.
+Print Assumptions tools_unknown_handler.
+
+(* streamed form: for every completion order, every chunking (non-empty, no error item) and
+   every complete interleaving of the tool streams, the position-wise concatenation of the
+   merged stream is the Invoke answer *)
+Theorem tools_stream_concat :
+  forall kind_of inv str handler pi pi' calls css,
+    calls <> [] ->
+    Permutation pi (seq 0 (List.length calls)) ->
+    Permutation pi' (seq 0 (List.length calls)) ->
+    Forall2 (fun c cs => s_answer kind_of inv str handler c = Ok (SOk cs None) /\ cs <> []) calls css ->
+    Forall2 (fun c cs => answer kind_of inv str handler c = Ok (TOk (concat_strings cs))) calls css ->
+    exists ss msgs,
+      tools_stream_open kind_of inv str handler pi true calls = Ok ss
+      /\ tools_invoke kind_of inv str handler pi' true calls = Ok msgs
+      /\ List.length msgs = List.length calls
+      /\ forall sched,
+           drained (merge_rest sched (stream_srcs ss)) = true ->
+           concat_pos (stream_ids ss) (fst (merge_run sched (stream_srcs ss))) = Ok (map Some msgs).
+Proof. exact stream_concat_eq_invoke. Qed.
+Print Assumptions tools_stream_concat.
+
+(* the consistency hypothesis of tools_stream_concat is automatic unless the tool implements
+   both interfaces itself *)
+Theorem tools_derived_consistent :
+  forall kind_of inv str handler c cs,
+    s_answer kind_of inv str handler c = Ok (SOk cs None) -> cs <> [] ->
+    kind_of (c_name c) <> Some KBoth ->
+    answer kind_of inv str handler c = Ok (TOk (concat_strings cs)).
+Proof. exact derived_consistent. Qed.
+Print Assumptions tools_derived_consistent.
+
+(* ---- non-vacuity ----------------------------------------------------------------------- *)
+Definition ex_kind (n : string) : option tkind :=
+  if String.eqb n "ta" then Some KInv else if String.eqb n "tb" then Some KStr
+  else if String.eqb n "tc" then Some KBoth else None.
+Definition ex_inv (n a : string) : tres :=
+  if String.eqb a "boom" then TErr 101 else if String.eqb a "panic" then TPanic else TOk (n ++ ":" ++ a).
+Definition ex_str (n a : string) : sres :=
+  if String.eqb a "boom" then SErr 101 else if String.eqb a "panic" then SPanic else SOk [n; ":"; a] None.
+Definition ex_handler : option (string -> string -> tres) := Some (fun n a => TOk ("unk:" ++ n)).
+Definition ex_calls : list call :=
+  [mkCall "c0" "ta" "x"; mkCall "c1" "tb" "y"; mkCall "c2" "zz" "z"; mkCall "c3" "tc" "w"].
+
+(* hypotheses of tools_invoke_spec / tools_stream_concat hold for a mixed call list ... *)
+Example invoke_spec_hyp :
+  Forall2 (fun c o => answer ex_kind ex_inv ex_str ex_handler c = Ok (TOk o)) ex_calls
+          ["ta:x"; "tb:y"; "unk:zz"; "tc:w"].
+Proof. repeat constructor. Qed.
+Example stream_concat_hyp :
+  Forall2 (fun c cs => s_answer ex_kind ex_inv ex_str ex_handler c = Ok (SOk cs None) /\ cs <> []) ex_calls
+          [["ta:x"]; ["tb"; ":"; "y"]; ["unk:zz"]; ["tc"; ":"; "w"]].
+Proof. repeat constructor; discriminate. Qed.
+(* ... and the conclusions are the expected concrete values, for a scrambled completion order
+   and a scrambled complete interleaving *)
+Example invoke_spec_nonvacuous :
+  tools_invoke ex_kind ex_inv ex_str ex_handler [3; 1; 0; 2]%nat true ex_calls
+  = Ok [("ta:x", "c0"); ("tb:y", "c1"); ("unk:zz", "c2"); ("tc:w", "c3")].
+Proof. vm_compute. reflexivity. Qed.
+Example stream_concat_nonvacuous :
+  match tools_stream_open ex_kind ex_inv ex_str ex_handler [2; 3; 1; 0]%nat true ex_calls with
+  | Ok ss =>
+      let sched := [3; 1; 0; 3; 2; 1; 3; 1]%nat in
+      drained (merge_rest sched (stream_srcs ss)) = true
+      /\ concat_pos (stream_ids ss) (fst (merge_run sched (stream_srcs ss)))
+         = Ok [Some ("ta:x", "c0"); Some ("tb:y", "c1"); Some ("unk:zz", "c2"); Some ("tc:w", "c3")]
+  | _ => False
+  end.
+Proof. vm_compute. split; reflexivity. Qed.
+(* failure: calls 1 and 2 fail, call 2 finishing first; the error of call 1 is reported *)
+Example fail_nonvacuous :
+  tools_invoke ex_kind ex_inv ex_str None [2; 0; 1]%nat true
+    [mkCall "c0" "ta" "x"; mkCall "c1" "tb" "boom"; mkCall "c2" "ta" "panic"] = Err 101.
+Proof. vm_compute. reflexivity. Qed.
+Example panic_inline_nonvacuous :
+  tools_invoke ex_kind ex_inv ex_str None [1; 0]%nat true [mkCall "c0" "ta" "panic"; mkCall "c1" "tb" "y"] = Panic
+  /\ in_graph (tools_invoke ex_kind ex_inv ex_str None [1; 0]%nat true [mkCall "c0" "ta" "panic"; mkCall "c1" "tb" "y"]) = Err E_PANIC.
+Proof. vm_compute. split; reflexivity. Qed.
+Example unknown_nonvacuous :
+  tools_invoke ex_kind ex_inv ex_str None [0; 1]%nat true [mkCall "c0" "ta" "x"; mkCall "c1" "zz" "y"] = Err E_UNKNOWN.
+Proof. vm_compute. reflexivity. Qed.
+(* outside the domain of tools_stream_concat: a streamable-only tool that emits no chunk —
+   Invoke fails (empty stream), the streamed form has a nil message at that position *)
+Example zero_chunk_outside_domain :
+  let str0 := fun (_ _ : string) => SOk [] None in
+  tools_invoke ex_kind ex_inv str0 None [0]%nat true [mkCall "c0" "tb" "y"] = Err E_EMPTY
+  /\ tools_stream_open ex_kind ex_inv str0 None [0]%nat true [mkCall "c0" "tb" "y"] = Ok [("c0", [], None)].
+Proof. vm_compute. split; reflexivity. Qed.
